@@ -1,7 +1,8 @@
 /* libm_stubs.c — the libm oracle of the model runner: the same glibc libm
    functions Rust's f32::sin etc. resolve to, called on bit patterns.
    fn ids as F32.libm_id: 0 sin 1 cos 2 tan 3 asin 4 acos 5 atan 6 exp 7 ln
-   8 atan2 9 rem_euclid (fmodf + the fix-up of core::f32::rem_euclid) 10 div_euclid. */
+   8 atan2 9 rem_euclid (fmodf + the fix-up of core::f32::rem_euclid) 10 div_euclid,
+   11 exp2f, 12 fmodf (the f32 `%`). */
 #include <math.h>
 #include <stdint.h>
 #include <string.h>
@@ -30,6 +31,8 @@ value fv_libm(value vf, value va, value vb) {
       float q = truncf(a / b);
       if (fmodf(a, b) < 0.0f) r = (b > 0.0f) ? q - 1.0f : q + 1.0f; else r = q;
       break; }
+    case 11: r = exp2f(a); break;
+    case 12: r = fmodf(a, b); break;
     default: r = NAN;
   }
   uint32_t out = to_bits(r);
